@@ -62,7 +62,7 @@ def shard(i: int, n: int, tier: str, seed: int) -> Result:
     res = Result(PROP, tier, seed)
     rng = random.Random(seed * 4409 + i)
     total = 4000 if tier == "quick" else 40000
-    prof = prog.profile(shadow_freevar_prob=0.25, closure_helpers_prob=0.3, helpers=3, w_call=5, w_with=4, w_for=3, w_if=2.5, w_freevar=2, w_index_assign=2, helper_ctx_prob=0.5,
+    prof = prog.profile(local_ctx_param_prob=0.2, contexts=prog.CONTEXTS + [('ctx', False), ('ctx', False), ('ctx1', False)], shadow_freevar_prob=0.25, closure_helpers_prob=0.3, helpers=3, w_call=5, w_with=4, w_for=3, w_if=2.5, w_freevar=2, w_index_assign=2, helper_ctx_prob=0.5,
                         mutate_helper_prob=0.45, mutating_call_in_expr_prob=0.5, helper_chain=True, reset_counter_per_function=True, computed_ctx_prob=0.25,
                         real_ops=('+', '-', '*', '/', 'neg', 'abs', 'sqrt', 'fma', 'min', 'max', 'round', 'floor', 'ifexpr', 'index', 'len', 'sum', 'call', 'call', 'call'),
                         args=lambda r: r.choice([('R', 'R', 'L'), ('R', 'L'), ('R', 'R'), ('R', 'L', 'L'), ('I', 'R', 'L')]))
